@@ -263,8 +263,14 @@ mod kani_c16 {
         let b = ser(&s);
         assert!(b.is_some()); assert!(is_tuple32(&b.unwrap(), &bytes));
     }
+    // any other scalar constructor a visitor might use instead of from_canonical_bytes must not make the harness unaffordable:
+    // reduction mod l is replaced by a model (clear the top four bits)
+    fn m_reduce(s: &Scalar) -> Scalar { let mut b = s.bytes; b[31] &= 0x0f; scalar_raw(b) }
+    fn m_mod_order(bytes: [u8; 32]) -> Scalar { let mut b = bytes; b[31] &= 0x0f; scalar_raw(b) }
     #[kani::proof] #[kani::unwind(42)]
     #[kani::stub(Scalar::from_canonical_bytes, m_canon)]
+    #[kani::stub(Scalar::reduce, m_reduce)]
+    #[kani::stub(Scalar::from_bytes_mod_order, m_mod_order)]
     fn c16_scalar_deserialize_validates() {
         let (data, len, compact) = input();
         let got: Option<Scalar> = de(&data, len, compact);
